@@ -76,7 +76,7 @@ def lastLine (s : Str) : Str := (s.reverse.takeWhile (· ≠ '\n')).reverse
 
 theorem takeWhile_stop (p : Char → Bool) : ∀ (l : Str) (c : Char) (r : Str), (∀ x ∈ l, p x = true) → p c = false →
     (l ++ c :: r).takeWhile p = l
-  | [], c, r, _, hc => by simp [List.takeWhile, hc]
+  | [], c, r, _, hc => by simp [hc]
   | x :: l, c, r, hl, hc => by
     simp only [List.cons_append, List.takeWhile, hl x (by simp)]
     rw [takeWhile_stop p l c r (fun y hy => hl y (by simp [hy])) hc]
@@ -292,5 +292,180 @@ theorem laid_MX (cfg : Cfg) (hm : cfg.mini = false) :
     · have := laid_MX cfg hm ks hs.2 hnw.2 c p e hc [] []
       rwa [pushData_nil] at this
 end
+
+/-! ### from blocks to tokens -/
+
+theorem layoutAt_textLike (unit : Str) (st : List Str) (acc : Str) (t : Token) (h : isTextLike t = true) :
+    LayoutAt unit st acc t ∧ stAfter st t = st := by
+  cases t <;> first | exact ⟨trivial, rfl⟩ | simp [isTextLike] at h
+
+theorem noPre_cons (m : Str) (st : List Str) : noPre (m :: st) = (!isPre m && noPre st) := by
+  simp [noPre]
+
+theorem render_elem_open (y : TagStyle) (m : Str) (st : AStore) (kk : List FNode) :
+    renderToksY y (FNode.elem m st false kk).toks
+      = renderTokY y (.start m st.items) ++ renderToksY y (ftoksL kk) ++ renderTokY y (.end_ m) := by
+  simp [FNode.toks, renderToksY, renderToksY_append]
+
+mutual
+/-- below pre/code the law demands nothing but balance -/
+theorem scanN_pre (y : TagStyle) (unit : Str) : ∀ u : FNode, u.TextLike → ∀ (st : List Str) (acc : Str)
+    (rest : List Token), noPre st = false → Scan y unit st (acc ++ renderToksY y u.toks) rest →
+      Scan y unit st acc (u.toks ++ rest)
+  | .tok t, h, st, acc, rest, _, hr => by
+    simp only [FNode.TextLike] at h
+    obtain ⟨h1, h2⟩ := layoutAt_textLike unit st acc t h
+    simp only [FNode.toks, List.cons_append, List.nil_append, Scan, h2]
+    refine ⟨h1, ?_⟩
+    simpa [FNode.toks, renderToksY] using hr
+  | .elem m sto sc kk, h, st, acc, rest, hp, hr => by
+    simp only [FNode.TextLike] at h
+    cases sc with
+    | true =>
+      simp only [FNode.toks, if_true, List.cons_append, List.nil_append, Scan, LayoutAt, stAfter]
+      refine ⟨fun hh => (by rw [hp] at hh; cases hh), ?_⟩
+      simpa [FNode.toks, renderToksY] using hr
+    | false =>
+      rw [render_elem_open] at hr
+      simp only [FNode.toks, Bool.false_eq_true, if_false, List.cons_append, List.append_assoc, Scan, LayoutAt,
+        stAfter]
+      refine ⟨fun hh => (by rw [hp] at hh; cases hh), ?_⟩
+      have hp' : noPre (m :: st) = false := by rw [noPre_cons, hp]; simp
+      apply scanL_pre y unit kk h (m :: st) _ _ hp'
+      simp only [List.nil_append, Scan, LayoutAt, stAfter, List.head?_cons, List.tail_cons,
+        true_and]
+      refine ⟨fun _ hh => (by rw [hp] at hh; cases hh), ?_⟩
+      simpa [List.append_assoc] using hr
+theorem scanL_pre (y : TagStyle) (unit : Str) : ∀ ks : List FNode, TextLikeL ks → ∀ (st : List Str) (acc : Str)
+    (rest : List Token), noPre st = false → Scan y unit st (acc ++ renderToksY y (ftoksL ks)) rest →
+      Scan y unit st acc (ftoksL ks ++ rest)
+  | [], _, st, acc, rest, _, hr => by simpa [ftoksL, renderToksY] using hr
+  | k :: ks, h, st, acc, rest, hp, hr => by
+    simp only [TextLikeL] at h
+    simp only [ftoksL, List.append_assoc]
+    apply scanN_pre y unit k h.1 st acc _ hp
+    apply scanL_pre y unit ks h.2 st _ rest hp
+    simpa [ftoksL, renderToksY_append, List.append_assoc] using hr
+end
+
+theorem render_endsData (y : TagStyle) (e : Str) (kk : List FNode) (h : EndsData e kk) :
+    e <:+ renderToksY y (ftoksL kk) := by
+  obtain ⟨front, x, rfl⟩ := h
+  rw [ftoksL_append, renderToksY_append]
+  simp only [ftoksL, FNode.toks, renderToksY, renderTokY, renderTok, List.append_nil]
+  exact ⟨renderToksY y (ftoksL front) ++ x, by simp⟩
+
+theorem suffix_append_left {e s : Str} (a : Str) (h : e <:+ s) : e <:+ a ++ s := by
+  obtain ⟨x, rfl⟩ := h
+  exact ⟨a ++ x, by simp⟩
+
+mutual
+/-- a laid-out element obeys the law on its tokens -/
+theorem scanN_laid (y : TagStyle) (unit : Str) : ∀ u : FNode, u.TextLike → ∀ (d : Nat) (st : List Str) (acc : Str)
+    (rest : List Token), LaidN unit d u → st.length = d → noPre st = true →
+      (∀ m sto sc kk, u = .elem m sto sc kk → indText unit d <:+ acc) →
+      Scan y unit st (acc ++ renderToksY y u.toks) rest → Scan y unit st acc (u.toks ++ rest)
+  | .tok t, h, d, st, acc, rest, _, _, _, _, hr => by
+    simp only [FNode.TextLike] at h
+    obtain ⟨h1, h2⟩ := layoutAt_textLike unit st acc t h
+    simp only [FNode.toks, List.cons_append, List.nil_append, Scan, h2]
+    refine ⟨h1, ?_⟩
+    simpa [FNode.toks, renderToksY] using hr
+  | .elem m sto sc kk, h, d, st, acc, rest, hl, hd, hp, hacc, hr => by
+    simp only [FNode.TextLike] at h
+    have hind := hacc m sto sc kk rfl
+    cases sc with
+    | true =>
+      simp only [FNode.toks, if_true, List.cons_append, List.nil_append, Scan, LayoutAt, stAfter]
+      refine ⟨fun _ => (by rw [hd]; exact hind), ?_⟩
+      simpa [FNode.toks, renderToksY] using hr
+    | false =>
+      rw [render_elem_open] at hr
+      simp only [FNode.toks, Bool.false_eq_true, if_false, List.cons_append, List.append_assoc, Scan, LayoutAt,
+        stAfter]
+      refine ⟨fun _ => (by rw [hd]; exact hind), ?_⟩
+      simp only [LaidN, Bool.false_eq_true, false_or] at hl
+      rcases hl with hpre | ⟨hkk, hend⟩
+      · -- pre/code: nothing demanded inside, nothing of its end tag
+        have hp' : noPre (m :: st) = false := by rw [noPre_cons, hpre]; simp
+        apply scanL_pre y unit kk h (m :: st) _ _ hp'
+        simp only [List.nil_append, Scan, LayoutAt, stAfter, List.head?_cons, List.tail_cons,
+          true_and]
+        refine ⟨fun hh => (by rw [hpre] at hh; cases hh), ?_⟩
+        simpa [List.append_assoc] using hr
+      · by_cases hpre : isPre m = true
+        · have hp' : noPre (m :: st) = false := by rw [noPre_cons, hpre]; simp
+          apply scanL_pre y unit kk h (m :: st) _ _ hp'
+          simp only [List.nil_append, Scan, LayoutAt, stAfter, List.head?_cons, List.tail_cons,
+            true_and]
+          refine ⟨fun hh => (by rw [hpre] at hh; cases hh), ?_⟩
+          simpa [List.append_assoc] using hr
+        · have hnpre : isPre m = false := by simpa using hpre
+          have hp' : noPre (m :: st) = true := by rw [noPre_cons, hnpre, hp]; rfl
+          apply scanL_laid y unit kk h (d + 1) [] (m :: st) _ _ hkk (by simp [hd]) hp' List.nil_suffix
+          simp only [List.nil_append, Scan, LayoutAt, stAfter, List.head?_cons, List.tail_cons,
+            true_and, List.length_cons, Nat.add_sub_cancel]
+          refine ⟨fun _ _ => ?_, ?_⟩
+          · rw [hd]
+            exact suffix_append_left _ (render_endsData y _ kk hend)
+          · simpa [List.append_assoc] using hr
+/-- a laid-out block list obeys the law on its tokens -/
+theorem scanL_laid (y : TagStyle) (unit : Str) : ∀ ks : List FNode, TextLikeL ks → ∀ (d : Nat) (prev : Str)
+    (st : List Str) (acc : Str) (rest : List Token), LaidL unit d prev ks → st.length = d → noPre st = true →
+      prev <:+ acc → Scan y unit st (acc ++ renderToksY y (ftoksL ks)) rest → Scan y unit st acc (ftoksL ks ++ rest)
+  | [], _, d, prev, st, acc, rest, _, _, _, _, hr => by simpa [ftoksL, renderToksY] using hr
+  | .tok t :: ks, h, d, prev, st, acc, rest, hl, hd, hp, _, hr => by
+    simp only [TextLikeL] at h
+    simp only [LaidL] at hl
+    simp only [ftoksL, List.append_assoc]
+    apply scanN_laid y unit (.tok t) h.1 d st acc _ trivial hd hp (by intro m sto sc kk e; cases e)
+    have hsuf : dataOf t <:+ acc ++ renderToksY y (FNode.tok t).toks := by
+      cases t <;> simp [dataOf, FNode.toks, renderToksY, renderTokY, renderTok]
+    apply scanL_laid y unit ks h.2 d (dataOf t) st _ rest hl hd hp hsuf
+    simpa [ftoksL, renderToksY_append, List.append_assoc] using hr
+  | .elem m sto sc kk :: ks, h, d, prev, st, acc, rest, hl, hd, hp, hprev, hr => by
+    simp only [TextLikeL] at h
+    simp only [LaidL] at hl
+    simp only [ftoksL, List.append_assoc]
+    apply scanN_laid y unit (.elem m sto sc kk) h.1 d st acc _ hl.2.1 hd hp
+      (fun _ _ _ _ _ => hl.1.trans hprev)
+    apply scanL_laid y unit ks h.2 d [] st _ rest hl.2.2 hd hp List.nil_suffix
+    simpa [ftoksL, renderToksY_append, List.append_assoc] using hr
+end
+
+/-! ### the document -/
+
+/-- **C12a on the output text, token form.**  Pretty class, a token sequence the plain parser builds into the strict
+    single-root document `u`: the output text is the rendering of the tokens the strict lexer reads back from it, and
+    those tokens obey the layout law (`Scan`), with depth and pre/code-ness recomputed from the tokens alone. -/
+theorem pretty_layout_core (cfg : Cfg) (hm : cfg.mini = false) (hi : IndentWS cfg) (dt : Option Str) (hdt : DtOK dt)
+    (n : Str) (st : AStore) (sc : Bool) (kids : List FNode) (hs : (FNode.elem n st sc kids).Strict)
+    (hnw : (FNode.elem n st sc kids).NoWrapper) (toks : List Tok) (hnws : NoWrapperStart toks)
+    (hp : Plain.feed toks = .ok ⟨[], some (FNode.elem n st sc kids).toNode, dt, 0, 0⟩) :
+    ∃ out toks2, format cfg toks = .ok out ∧ lexStrict out = some toks2 ∧
+      out = renderToksY (styleOf cfg.kind) toks2 ∧ Scan (styleOf cfg.kind) cfg.indent [] [] toks2 := by
+  obtain ⟨f1, l1, _, _, s1, _⟩ := pass_step cfg hi dt hdt n st sc kids hs hnw toks hnws hp
+  refine ⟨_, _, f1, l1, rfl, ?_⟩
+  have hI := indentAt_pretty cfg hm ⟨0, 0⟩ rfl
+  have hblocks : Scan (styleOf cfg.kind) cfg.indent [] (renderToksY (styleOf cfg.kind) (dtToks dt))
+      (ftoksL (outBlocks cfg dt (.elem n st sc kids)) ++ []) := by
+    have htl := strictL_textLike _ (strict_outBlocks cfg hi dt _ hs)
+    apply scanL_laid _ _ _ htl 0 [] [] _ [] ?_ rfl rfl List.nil_suffix
+    · simp [Scan]
+    · rw [outBlocks_eq, outRoot_eq_gK, dataTok_ne _ (by rw [hI]; simp)]
+      simp only [List.cons_append, List.nil_append, LaidL, dataOf, and_true]
+      refine ⟨?_, laid_gK cfg hm _ hs hnw ⟨0, 0⟩ rfl⟩
+      rw [hI]
+      exact List.suffix_append _ _
+  rw [List.append_nil] at hblocks
+  unfold outToks
+  cases dt with
+  | none => simpa [dtToks, renderToksY] using hblocks
+  | some d =>
+    by_cases hd : d.isEmpty = true
+    · simpa [dtToks, hd, renderToksY] using hblocks
+    · simp only [dtToks, hd, Bool.false_eq_true, if_false, List.cons_append, List.nil_append, Scan, LayoutAt,
+        stAfter, true_and]
+      simpa [dtToks, hd, renderToksY] using hblocks
 
 end AHP.Fmt
